@@ -1586,8 +1586,20 @@ func (fv *FuncVerifier) execFor(st *State, env *Env, x *ast.ForStmt, label strin
 			if o := env.info.ObjectOf(id); o == nil || bodyWs.vars[o] {
 				seqStable = false
 			}
+		} else if sel, ok := ast.Unparen(sx).(*ast.SelectorExpr); ok {
+			// x.f with x a variable the body does not assign and f a field the body does not write
+			seqStable = false
+			if xid, ok := ast.Unparen(sel.X).(*ast.Ident); ok && !bodyWs.heapAll {
+				if o := env.info.ObjectOf(xid); o != nil && !bodyWs.vars[o] {
+					if s, ok := env.info.Selections[sel]; ok && s.Kind() == types.FieldVal && len(s.Index()) == 1 {
+						if !bodyWs.heap[fieldKey(env.info.TypeOf(sel.X), s.Obj().Name())] {
+							seqStable = true
+						}
+					}
+				}
+			}
 		} else {
-			seqStable = false // a heap path: only identifiers are tracked here
+			seqStable = false
 		}
 		if !bodyWs.vars[iobj] && seqStable {
 			if t := fv.typeOf(env, sx); t != nil {
